@@ -207,6 +207,13 @@ func checkC07(c CaseC07, info *Info) *Failure {
 		}
 	}
 
+	if f := staleAfterChange(subject, "ValuesForPath("+path+")", func(v mxj.Map) string {
+		vs, err := v.ValuesForPath(path)
+		ex, _ := v.Exists(path)
+		return fmt.Sprint(sortedCanon(vs), err, ex)
+	}); f != nil {
+		return f
+	}
 	// classes and non-triviality
 	crossing := wild || idx > 0 || crossesList(c.Map, c.Steps)
 	info.Class("src:" + c.Src)
